@@ -454,3 +454,11 @@ Example span_conversion_met :
   render (tokensJ_of (jspan_val (span_to_jspan o))) =
   "{""traceID"":""ab41"",""traceId"":""ab41"",""spanID"":""7a"",""spanId"":""7a"",""name"":""n"",""startTimeUnixNano"":5,""endTimeUnixNano"":7,""parentSpanId"":""0000"",""serviceName"":""svc"",""attributes"":[{""key"":""service.name"",""value"":{""stringValue"":""svc""}},{""key"":""d"",""value"":{""stringValue"":""1.34217728e+08""}},{""key"":""y"",""value"":{""stringValue"":""TWE=""}},{""key"":""b"",""value"":{""stringValue"":""true""}}],""events"":[]}".
 Proof. vm_compute. reflexivity. Qed.
+
+(* the canned answer of Query for the probe vector(1)+vector(1) is the vector body of one sample without labels (the clock's
+   second, value 2): an instance of doc_wellformed_vector_rows *)
+Example shortcut_is_a_vector_body :
+  let r := {| r_fp := 0; r_lbls := []; r_ts := 1700000000000000000%Z; r_msg := ""; r_bits := 4611686018427387904; r_err := ENone |} in
+  render (enc_vector [0%N] (rows_with vector_row [[r]])) =
+  "{""status"":""success"",""data"":{""resultType"":""vector"",""result"":[{""metric"":{},""value"":[1700000000,""2""]}]}}".
+Proof. vm_compute. reflexivity. Qed.
